@@ -236,7 +236,8 @@ class AdnlWorld(HistoryWorld):
         elif st.leg == 'sign':
             for _ in range(ctx.cfg['steps']):
                 n = rng.choice([0, 1, 31, 32, 33, 64, 200, 5000])
-                st.queue.append({'op': 'sign', 'key': rng.randrange(3), 'route': rng.choice(['client', 'get_signature', 'sign_message']),
+                st.queue.append({'op': 'sign', 'key': rng.randrange(3), 'route': rng.choice(['client', 'get_signature', 'sign_message', 'sign_message_enc']),
+                                 'enc': rng.choice(['hex', 'base16', 'base32', 'base64', 'urlsafe-base64', 'raw']),
                                  'msg': bytes(rng.getrandbits(8) for _ in range(n)).hex(), 'alt_seed': rng.getrandbits(32)})
         elif st.leg == 'scripted':
             # the entropy source happens to deliver exactly the bytes that spell a valid phrase (pinned corpus of phrases found by
@@ -416,6 +417,23 @@ class AdnlWorld(HistoryWorld):
             ok, sig = call(lambda: lc.Client(seed).sign(msg))
         elif route == 'get_signature':
             ok, sig = call(lc.get_signature, sk, msg)
+        elif route == 'sign_message_enc':
+            # the helper's documented encoder parameter: the result is the signature in that encoding
+            import nacl.encoding as ne
+            enc = {'hex': ne.HexEncoder, 'base16': ne.Base16Encoder, 'base32': ne.Base32Encoder, 'base64': ne.Base64Encoder,
+                   'urlsafe-base64': ne.URLSafeBase64Encoder, 'raw': ne.RawEncoder}[op.get('enc', 'hex')]
+            ok, sig = call(sign_message, msg, seed + pub, enc)
+            if ok:
+                ctx.probe('signature-requested-in-encoding/' + op.get('enc', 'hex'))
+                try:
+                    sig = enc.decode(sig)
+                except Exception as e:
+                    self.V(ctx, 'signature-shape', route, 'encoding-' + op.get('enc', 'hex'), 'the encoded signature does not decode: %r' % (e,))
+                    return
+                route = 'sign_message'
+                if len(sig) != 64:
+                    self.V(ctx, 'signature-shape', route, 'encoding-' + op.get('enc', 'hex'), 'the %s-encoded signature decodes to %d bytes (expected 64)' % (op.get('enc'), len(sig)))
+                    return
         else:
             ok, sig = call(sign_message, msg, seed + pub)
         if not ok:
@@ -469,7 +487,8 @@ class AdnlWorld(HistoryWorld):
             if ok and r:
                 self.V(ctx, 'forgery-accepted', route, 'signature-bit-%s' % ('R' if i < 256 else 'S'), 'verify_sign accepted the signature with bit %d flipped' % i)
                 return
-        for cut in (sig[:63], sig + b'\x00', b''):
+        x = bytes(ar.getrandbits(8) for _ in range(ar.choice([1, 4, 32])))
+        for cut in (sig[:63], sig + b'\x00', b'', sk.sign(x + msg).signature + x):
             ok, r = call(verify_sign, pub, msg, cut)
             if ok and r:
                 self.V(ctx, 'forgery-accepted', route, 'signature-length', 'verify_sign accepted a %d byte signature' % len(cut))
